@@ -101,7 +101,10 @@ fn main() {
         // the extension law is about the 30-day horizon: try it across a leap-year end as well
         let bds = base_dates();
         let runs: Vec<(chrono::NaiveDate, Order)> = if par.law == "extend" {
-            vec![(bds[0], Order::Canonical), (bds[1], Order::Shuffled(case_no as u64)), (bds[7], Order::ActionsFirst)]
+            // ... and with the first later slot falling on 6 April 2024, the day after the prefix's tax year closes
+            let first_ext = pair.b.days.get(par.p.unwrap_or(0)).copied().unwrap_or(0) - pair.b.days.first().copied().unwrap_or(0);
+            let apr6 = NaiveDate::from_ymd_opt(2024, 4, 6).unwrap_or(bds[0]) - chrono::Duration::days(first_ext);
+            vec![(bds[0], Order::Canonical), (bds[1], Order::Shuffled(case_no as u64)), (bds[7], Order::ActionsFirst), (apr6, Order::Canonical)]
         } else {
             vec![(base, Order::Canonical), (base, Order::Shuffled(case_no as u64)), (base, Order::ActionsFirst)]
         };
@@ -200,6 +203,26 @@ fn main() {
                     if !sa.disposals.is_empty() { cnt.inc("nontrivial"); }
                 }
                 _ => {}
+            }
+            // C12 through the single-year view: the report of a year that closed before the first later
+            // transaction is the same whether or not the later transactions are there
+            if par.law == "extend" {
+                let first_later = date_of(&pair.b, base, par.p.unwrap_or(0) + 1);
+                for y in sa.years.keys() {
+                    let Some(end) = NaiveDate::from_ymd_opt(i32::from(*y) + 1, 4, 5) else { continue };
+                    if end >= first_later { continue; }
+                    let (t1, t2) = (ta.clone(), tb.clone());
+                    let cfg = &config;
+                    let yy = i32::from(*y);
+                    let ya = guarded(move || calculate(&t1, Some(yy), None, cfg).map(|r| format!("{:?}", r.tax_years)).map_err(|e| e.to_string()));
+                    let yb = guarded(move || calculate(&t2, Some(yy), None, cfg).map(|r| format!("{:?}", r.tax_years)).map_err(|e| e.to_string()));
+                    cnt.add("executions", 2);
+                    cnt.inc("closed_year_views");
+                    if ya != yb {
+                        push("closed_year_view_changed", format!("the report for tax year {y}/{} (closed before {first_later}) changes when the later transactions are added:\n{:?}\nvs\n{:?}", (y + 1) % 100, ya, yb), json!({"year": y}));
+                        break;
+                    }
+                }
             }
             let d = compare(&sa, &sb, tol_proceeds(), years);
             if !d.deep.is_empty() || !d.shallow.is_empty() {
